@@ -12,17 +12,19 @@ from ..sym import OutOfReach
 LEVEL = "other"
 MANIFEST = {
     "category": "other",
-    "technique": "run-time contract (post-condition in exact integer / rational arithmetic) on the real get_unique_invariant_filters, evaluated exhaustively over a finite domain of (group, d, M, k, parity); bounded stand-in of contract-based verification, not a proof. Deductive (z3, all pixel values): GeometricFilter.normalize / rectify rescale by a non-zero scalar on every path; get_invariant_filters(_dict/_list) against the generator's callee contract",
+    "technique": "run-time contract (post-condition in exact integer / rational arithmetic) on the real get_unique_invariant_filters, evaluated exhaustively over a finite domain of (group, d, M, k, parity); bounded stand-in of contract-based verification, not a proof. Deductive (z3): (a) the generator's core for ALL filter sides M at once -- the real get_unique_invariant_filters executed with a symbolic M up to the row selection (cut point jnp.abs(filter_matrix)): every row of the matrix it builds is the group average sum_g g.e_b of a basis element (act_spec), is fixed by every listed operator, and two rows that overlap are equal up to sign; (b) GeometricFilter.normalize / rectify rescale by a non-zero scalar on every path (all pixel values); (c) get_invariant_filters(_dict/_list) against the generator's callee contract",
     "text": "For every instance of the stated finite domain the real generator is called (in one process per (group, d), sides and orders ascending, so cache / call-history effects are exercised) and its post-condition is checked exactly: every returned filter, rescaled to its primitive integer vector, is fixed by every group element; the integer matrix of the family has full row rank over Q; the family size equals the dimension of the fixed subspace computed twice independently (character formula (1/|G|) sum_g fix(g) tr(g)^k det(g)^p and the orbit construction of the general invariant filter). This is the closed-generator case of DESIGN.md 3/C03: there is no quantifier a deductive verifier could discharge beyond the enumeration itself.",
     "note": "BOUNDED: domain G in {B_d (both list orders), rotation subgroup, C2^d, trivial, <r90>, <flip> (identity listed last)}, d in {2,3}, M = 1..5 (d=2) / 1..3 (d=3, thorough 1..4), k = 0..4 (d=2; quick 0..3) / 0..2 (d=3); float output is accepted as a rational multiple of an integer filter to 1e-5; GeometricFilter.normalize / rectify (rescaling by a non-zero scalar) are exercised through the generator",
 }
-FUNCTIONS = ["GeometricFilter.normalize (deductive: every path, symbolic pixel values)", "GeometricFilter.rectify (deductive)", "geometric.common.get_invariant_filters_dict / _list / get_invariant_filters (deductive, modular over the generator)", "geometric.common.get_unique_invariant_filters (bounded run-time contract)", "geometric.common.get_basis", "GeometricFilter.normalize", "GeometricFilter.rectify", "GeometricFilter.bigness",
+FUNCTIONS = ["geometric.common.get_unique_invariant_filters -- prefix up to the row selection (deductive, symbolic filter side M: get_basis, the vmap over the basis, times_group_element for every listed operator, the sum, the reshape)", "geometric.common.get_basis (deductive, symbolic shape)", "GeometricFilter.normalize (deductive: every path, symbolic pixel values)", "GeometricFilter.rectify (deductive)", "geometric.common.get_invariant_filters_dict / _list / get_invariant_filters (deductive, modular over the generator)", "geometric.common.get_unique_invariant_filters (bounded run-time contract)", "geometric.common.get_basis", "GeometricFilter.normalize", "GeometricFilter.rectify", "GeometricFilter.bigness",
              "functional_geometric_image.times_group_element (through the generator)"]
-TRUSTED = ["the real jax / numpy execution of the generator", "exact rational rank computation and character formula in gvc/native/c03.py", "gvc/specs/invfilter.py (second, independent dimension count)"]
+TRUSTED = ["paper argument from the three proved prefix clauses to the property for the POST-PROCESSED family: rows are P e_b with P = sum_g g (so their span is the image of P, which is the invariant subspace because P v = |G| v for invariant v -- needs only closure of the listed operators, checked in C02/ob_generators and by the run-time contract); overlapping rows are equal up to sign, so after dropping zero rows, fixing the leading sign and np.unique the surviving rows have pairwise disjoint supports, hence are independent and still span the image. The float post-processing itself (zero-row mask, sign, np.unique, scaling, argsort) is NOT verified deductively: it stays under the bounded run-time contract", "cut point: the prefix obligations end at the first call of jnp.abs inside the generator; an edit that moves work before / after it is seen by the run-time contract only",
+           "the real jax / numpy execution of the generator", "exact rational rank computation and character formula in gvc/native/c03.py", "gvc/specs/invfilter.py (second, independent dimension count)"]
 ASSUMPTIONS = ["bounded domain (stated in the level note)", "returned floats are rational multiples of small integer vectors (checked to 1e-5)"]
 EXPLANATION = ("Exhaustive evaluation of a run-time contract on a finite parameter domain: every (group, d, M, k, parity) instance listed in structure_grid is executed on the real "
                "code and its post-condition decided exactly. Labelled bounded; 'discharged' counts contract evaluations that held, not proofs.")
-GRID = {"quick": "d=2: 7 group listings x M 1..4 x k 0..3 x p; d=3: 4 group listings x M 1..3 x k 0..1 x p",
+GRID = {"deductive core (all M)": "d=2: B_2 x (k,p) in {(0,0),(0,1),(1,0),(1,1)}, rotations (1,0), C2^2 (1,1), <r90> (0,0), <flip> (1,0); d=3: C2^3 (0,0),(1,0), <r90> (0,1); thorough adds B_2 k=2, reversed listing, rotations (2,1), d=3 C2^3 (1,1), rotations (0,0)",
+        "quick": "d=2: 7 group listings x M 1..4 x k 0..3 x p; d=3: 4 group listings x M 1..3 x k 0..1 x p",
         "thorough": "d=2: M 1..5, k 0..4; d=3: M 1..4 (B_d: 1..3), k 0..2"}
 
 G2 = ["B_d", "B_d reversed", "rotations", "C2^d", "trivial", "<r90> (identity last)", "<flip> (identity last)"]
